@@ -515,3 +515,126 @@ impl<'a> MoveContext<'a> {
         MoveContext::Activity { solution_ctx, route_ctx, activity_ctx }
     }
 }
+
+
+/// Verification hooks: comparable rendering of cached states.
+#[cfg(reinterpretcat_vrp_verif)]
+mod verif {
+    use super::*;
+    use crate::models::common::{Footprint, MultiDimLoad, SingleDimLoad};
+    use crate::solver::search::TabuList;
+
+    type AnyValue = Arc<dyn Any + Send + Sync>;
+
+    fn job_id(job: &Job) -> String {
+        job.dimens().get_job_id().cloned().unwrap_or_else(|| "?".to_string())
+    }
+
+    fn fmt_float(value: &Float) -> String {
+        // NOTE identify zeros, keep everything else bit-exact
+        if *value == 0. { "0".to_string() } else { format!("{:?}", value) }
+    }
+
+    /// Renders a state value, returns None if its type is not known.
+    fn render(value: &AnyValue) -> Option<(bool, String)> {
+        macro_rules! try_as {
+            ($type:ty, $is_history:expr, $fmt:expr) => {
+                if let Some(value) = value.downcast_ref::<$type>() {
+                    #[allow(clippy::redundant_closure_call)]
+                    return Some(($is_history, ($fmt)(value)));
+                }
+            };
+        }
+
+        try_as!(Float, false, |v: &Float| fmt_float(v));
+        try_as!(usize, false, |v: &usize| v.to_string());
+        try_as!(bool, false, |v: &bool| v.to_string());
+        try_as!(String, false, |v: &String| format!("{v:?}"));
+        try_as!(Vec<Float>, false, |v: &Vec<Float>| format!("[{}]", v.iter().map(fmt_float).collect::<Vec<_>>().join(",")));
+        try_as!(Vec<(usize, usize)>, false, |v: &Vec<(usize, usize)>| format!("{v:?}"));
+        try_as!(Vec<SingleDimLoad>, false, |v: &Vec<SingleDimLoad>| format!("{:?}", v.iter().map(|l| l.value).collect::<Vec<_>>()));
+        try_as!(Vec<MultiDimLoad>, false, |v: &Vec<MultiDimLoad>| format!("{:?}", v.iter().map(|l| l.load).collect::<Vec<_>>()));
+        try_as!(Vec<Option<SingleDimLoad>>, false, |v: &Vec<Option<SingleDimLoad>>| format!(
+            "{:?}",
+            v.iter().map(|l| l.map(|l| l.value)).collect::<Vec<_>>()
+        ));
+        try_as!(Vec<Option<MultiDimLoad>>, false, |v: &Vec<Option<MultiDimLoad>>| format!(
+            "{:?}",
+            v.iter().map(|l| l.map(|l| l.load)).collect::<Vec<_>>()
+        ));
+        try_as!(HashSet<String>, false, |v: &HashSet<String>| {
+            let mut v = v.iter().cloned().collect::<Vec<_>>();
+            v.sort();
+            format!("{v:?}")
+        });
+        try_as!(HashMap<usize, HashSet<usize>>, false, |v: &HashMap<usize, HashSet<usize>>| {
+            let mut v = v
+                .iter()
+                .map(|(k, v)| {
+                    let mut v = v.iter().copied().collect::<Vec<_>>();
+                    v.sort();
+                    (*k, v)
+                })
+                .collect::<Vec<_>>();
+            v.sort();
+            format!("{v:?}")
+        });
+        try_as!(HashMap<Job, (usize, usize)>, false, |v: &HashMap<Job, (usize, usize)>| {
+            let mut v = v.iter().map(|(job, range)| (job_id(job), *range)).collect::<Vec<_>>();
+            v.sort();
+            format!("{v:?}")
+        });
+        try_as!(Footprint, true, |v: &Footprint| format!("footprint:{}", v.iter().map(|(_, v)| v as usize).sum::<usize>()));
+        try_as!(TabuList, true, |v: &TabuList| v.verif_render());
+
+        None
+    }
+
+    fn digest(index: &HashMap<TypeId, AnyValue, BuildHasherDefault<FxHasher>>, with_history: bool) -> (Vec<String>, usize) {
+        let mut opaque = 0;
+        let mut items = index
+            .iter()
+            .filter_map(|(key, value)| match render(value) {
+                Some((is_history, _)) if is_history && !with_history => None,
+                Some((_, value)) => Some(format!("{key:?}={value}")),
+                None => {
+                    opaque += 1;
+                    Some(format!("{key:?}=<opaque>"))
+                }
+            })
+            .collect::<Vec<_>>();
+        items.sort();
+
+        (items, opaque)
+    }
+
+    impl RouteState {
+        /// Returns sorted rendering of all state entries and amount of entries of unknown type.
+        pub fn verif_digest(&self) -> (Vec<String>, usize) {
+            digest(&self.index, true)
+        }
+    }
+
+    impl SolutionState {
+        /// Returns sorted rendering of state entries and amount of entries of unknown type.
+        /// History data (footprint, tabu list) is included only when `with_history` is set.
+        pub fn verif_digest(&self, with_history: bool) -> (Vec<String>, usize) {
+            digest(&self.index, with_history)
+        }
+
+        /// Removes all entries except history data (footprint, tabu list, solution weights).
+        pub fn verif_strip_features(&mut self) {
+            self.index.retain(|_, value| {
+                render(value).is_some_and(|(is_history, _)| is_history) || value.downcast_ref::<Vec<Float>>().is_some()
+            });
+        }
+    }
+
+    impl RouteContext {
+        /// Drops all cached state and marks route as stale.
+        pub fn verif_reset_state(&mut self) {
+            self.state = RouteState::default();
+            self.mark_stale(true);
+        }
+    }
+}
